@@ -935,9 +935,11 @@ class TestResult(unittest.TestResult):
 
     def _restoreStdStreams(self):
         """Restore the buffered standard streams and return any contents."""
-        if self.options.buffer:
-            stdout = sys.stdout.getvalue()
-            stderr = sys.stderr.getvalue()
+        if self.options.buffer and self._stdout_buffer is not None:
+            # Read our own buffers, not ``sys.stdout``: an earlier result
+            # event of the same test has already restored the streams.
+            stdout = self._stdout_buffer.getvalue()
+            stderr = self._stderr_buffer.getvalue()
             sys.stdout = self._original_stdout
             sys.stderr = self._original_stderr
             self._stdout_buffer.seek(0)
